@@ -5,7 +5,12 @@ rebuild munged from /repo's current sources -> (a) strace of a start + clean sto
 abstracted to the model's step alphabet, must equal the model program -> (b) live: racing starts (barrier,
 random per-process syscall delays), late starts against a serving daemon, clean stop, restart -> (c) SIGKILL
 injected at the syscalls of start-up and shutdown that touch the names, then a plain restart must serve ->
-(thorough) replay of finding F-C15-unlink."""
+(d) socket path names as byte strings: a daemon is started on socket paths of sizeof(sun_path)-2 .. +1 bytes (thorough:
+more lengths, up to past lock.c's name buffer); strace gives the name used at every site (lock, stale unlink, bind,
+shutdown unlinks), compared with StartPathModel.cprog for the same path; /proc/net/unix and the directory are read
+after start, after a second start on a proper prefix of the path, and after clean stops, and the property's clauses
+are evaluated on them (one listener per name, every live daemon reachable under its configured path, nothing left)
+-> (thorough) replay of finding F-C15-unlink."""
 import json, os, re, shutil, signal, socket, struct, subprocess, time, fcntl
 from concurrent.futures import ThreadPoolExecutor
 import vlib
@@ -53,17 +58,17 @@ def munged_sources():
 
 class Dir:
     """one socket directory with its own key"""
-    def __init__(self, ctx, tag):
+    def __init__(self, ctx, tag, sock=None, sfx=""):
         self.ctx = ctx
         self.d = os.path.join(ctx.tmp, tag)
         os.makedirs(self.d, exist_ok=True)
         os.chmod(self.d, 0o755)
-        self.sock = os.path.join(self.d, "s")
+        self.sock = sock or os.path.join(self.d, "s")
         self.lock = self.sock + ".lock"
-        self.pid = os.path.join(self.d, "pid")
-        self.seed = os.path.join(self.d, "seed")
-        self.key = os.path.join(self.d, "key")
-        self.log = os.path.join(self.d, "log")
+        self.pid = os.path.join(self.d, "pid" + sfx)
+        self.seed = os.path.join(self.d, "seed" + sfx)
+        self.key = os.path.join(self.d, "key" + sfx)
+        self.log = os.path.join(self.d, "log" + sfx)
         with open(self.key, "wb") as f:
             f.write(os.urandom(32))
         os.chmod(self.key, 0o600)
@@ -650,6 +655,390 @@ def scenario_crash(ctx, exe, spec):
 
 
 # ---------------------------------------------------------------------------------------------------
+# (d) socket path names as byte strings
+# ---------------------------------------------------------------------------------------------------
+def path_of_length(base, n):
+    """a path of exactly n bytes under directory base (intermediate directories are created, mode 0755);
+    None when n is too short for base"""
+    d = base
+    rest = n - len(d) - 1
+    while rest > 200:
+        d = os.path.join(d, "d" * 100)
+        rest -= 101
+    if rest < 1:
+        return None
+    os.makedirs(d, exist_ok=True)
+    q = d
+    while len(q) > len(base):
+        os.chmod(q, 0o755)
+        q = os.path.dirname(q)
+    return os.path.join(d, "s" * rest)
+
+
+def listening_under(prefix):
+    """[(path, socket inode)] of listening unix stream sockets whose bound name starts with prefix (/proc/net/unix:
+    Num RefCount Protocol Flags Type St Inode Path; __SO_ACCEPTCON = 0x10000 in Flags)"""
+    out = []
+    try:
+        for line in open("/proc/net/unix").read().splitlines()[1:]:
+            f = line.split(None, 7)
+            if len(f) == 8 and f[7].startswith(prefix) and int(f[3], 16) & 0x10000:
+                out.append((f[7], int(f[6])))
+    except (OSError, ValueError):
+        pass
+    return sorted(out)
+
+
+def tree_files(base):
+    """{path: 'sock'|'reg'|'dir-ish'} of everything that is not a directory under base"""
+    import stat as _st
+    out = {}
+    for root, _, files in os.walk(base):
+        for fn in files:
+            p = os.path.join(root, fn)
+            try:
+                m = os.lstat(p).st_mode
+            except OSError:
+                continue
+            out[p] = "sock" if _st.S_ISSOCK(m) else "reg"
+    return out
+
+
+def raw_trace(text, base, ignore, main_pid=None):
+    """strace -f output -> the steps of the main pid on names under directory base, WITH THE NAMES AS PASSED TO THE
+    KERNEL: open:<p> (creating/writing opens), fstat:<p> setlk:<p> close:<p> (on the descriptor that gets the
+    F_SETLK), unlink:<p>, bind:<p>, listen, close_sock, serve, exit / exit!N / killed."""
+    lines = []
+    for line in text.splitlines():
+        m = re.match(r"^(\d+)\s+(.*)$", line)
+        if not m:
+            continue
+        if main_pid is None:
+            main_pid = int(m.group(1))
+        if int(m.group(1)) == main_pid:
+            lines.append(m.group(2))
+    # first pass: which open() calls return the descriptor that later gets the F_SETLK (descriptor numbers are reused)
+    lock_opens, fdopen = set(), {}
+    for i, rest in enumerate(lines):
+        m = re.match(r"(?:openat|open|creat)\(.*\)\s+= (\d+)", rest)
+        if m:
+            fdopen[int(m.group(1))] = i
+            continue
+        m = re.match(r"close\((\d+)\)", rest)
+        if m:
+            fdopen.pop(int(m.group(1)), None)
+            continue
+        m = re.match(r"fcntl\((\d+), F_(?:OFD_)?SETLKW?,", rest)
+        if m and int(m.group(1)) in fdopen:
+            lock_opens.add(fdopen[int(m.group(1))])
+    toks = []
+    fdpath = {}
+    sockfd = None
+    under = lambda p: p.startswith(base + "/") and p not in ignore
+    lock_fds = set()
+    for li, rest in enumerate(lines):
+        if rest.startswith("--- SIGTERM") or rest.startswith("--- SIGINT"):
+            toks.append("serve")
+            continue
+        m = re.match(r"\+\+\+ exited with (\d+) \+\+\+", rest)
+        if m:
+            toks.append("exit" if m.group(1) == "0" else "exit!%s" % m.group(1))
+            continue
+        if rest.startswith("+++ killed"):
+            toks.append("killed")
+            continue
+        m = re.match(r"(\w+)\((.*)\)\s+= (-?\d+|\?)(.*)$", rest)
+        if not m:
+            continue
+        sc, args, ret = m.group(1), m.group(2), m.group(3)
+        ok = ret != "?" and not ret.startswith("-")
+        if ok and li in lock_opens:
+            lock_fds.add(int(ret))
+        paths = [p for p in re.findall(r'"((?:[^"\\]|\\.)*)"', args) if under(p)]
+        fdm = re.match(r"(\d+)[,)]?", args)
+        fd = int(fdm.group(1)) if fdm else None
+        if sc in ("openat", "open", "creat"):
+            if not paths or not ("O_CREAT" in args or sc == "creat" or "O_WRONLY" in args or "O_RDWR" in args):
+                continue
+            toks.append("open:" + paths[0] + ("" if ok else "!"))
+            if ok:
+                fdpath[int(ret)] = paths[0]
+        elif sc in ("unlink", "unlinkat", "rmdir"):
+            toks += ["unlink:" + p for p in paths]
+        elif sc in ("rename", "renameat", "renameat2", "link", "linkat", "symlink", "symlinkat", "mknod", "mknodat"):
+            toks += ["other:%s:%s" % (sc, p) for p in paths]
+        elif sc == "bind":
+            mm = re.search(r'sun_path="((?:[^"\\]|\\.)*)"', args)
+            if mm and (under(mm.group(1)) or mm.group(1).startswith(base)):
+                toks.append("bind:" + mm.group(1) + ("" if ok else "!"))
+                if ok:
+                    sockfd = fd
+        elif sc == "listen":
+            if fd is not None and fd == sockfd:
+                toks.append("listen" if ok else "listen!")
+        elif sc in ("newfstatat", "fstat") and not paths:
+            if fd in lock_fds and fd in fdpath and (sc == "fstat" or '""' in args):
+                toks.append("fstat:" + fdpath[fd])
+        elif sc == "fcntl":
+            if fd in lock_fds and fd in fdpath and re.search(r"F_(OFD_)?SETLKW?,", args):
+                toks.append("setlk:" + fdpath[fd] + ("" if ok else "!"))
+        elif sc == "close":
+            if fd in lock_fds and fd in fdpath:
+                toks.append("close:" + fdpath.pop(fd))
+                lock_fds.discard(fd)
+            elif fd is not None and fd == sockfd:
+                toks.append("close_sock")
+                sockfd = None
+            else:
+                fdpath.pop(fd, None)
+    return toks, main_pid
+
+
+def model_path_program(oracle, D):
+    """StartPathModel.cprog for D's configuration, in raw_trace's vocabulary -> (tokens up to the end or up to the
+    refused bind, refused?, model's bind name)"""
+    hx = lambda p: p.encode().hex()
+    rc, out, err = vlib.run_lines([oracle], ["N %s %s %s" % (hx(D.sock), hx(D.pid), hx(D.seed))])
+    if rc != 0 or len(out) != 1 or not out[0].startswith("N "):
+        return None, None, None
+    un = lambda h: "" if h == "-" else bytes.fromhex(h).decode()
+    toks, lockname, refused, bindname = [], None, False, None
+    for t in out[0].split()[1:]:
+        k, _, v = t.partition(":")
+        if k == "open_lock":
+            lockname = un(v)
+            toks.append("open:" + lockname)
+        elif k == "fstat_lock":
+            toks.append("fstat:" + lockname)
+        elif k == "setlk":
+            toks.append("setlk:" + lockname)
+        elif k == "close_lock":
+            toks.append("close:" + lockname)
+        elif k == "unlink":
+            toks.append("unlink:" + un(v))
+        elif k in ("write_pid", "write_seed"):
+            toks.append("open:" + un(v))
+        elif k == "bind":
+            r, _, nm = v.partition(":")
+            bindname = un(nm)
+            if r == "1":
+                refused = True
+                break
+            toks.append("bind:" + bindname)
+        else:
+            toks.append(k)
+    return toks, refused, bindname
+
+
+def start_fg(D, exe, trace=None):
+    argv = D.argv(exe)
+    if trace:
+        argv = ["strace", "-f", "-o", trace, "-e", TRACE] + argv
+    return popen(D, argv)
+
+
+def wait_started(D, proc, timeout=6.0):
+    """True when the daemon of this configuration is up (pid file written and a munged of this configuration alive),
+    False when the start command has exited"""
+    def up():
+        if proc.poll() is not None:
+            return "exited"
+        if os.path.exists(D.pid) and D.procs():
+            return "up"
+        return None
+    return wait_for(up, timeout) == "up"
+
+
+def stop_clean(D, proc, timeout=8.0):
+    for q in D.procs():
+        try:
+            os.kill(q, signal.SIGTERM)
+        except OSError:
+            pass
+    try:
+        proc.wait(timeout=timeout)
+        return True
+    except subprocess.TimeoutExpired:
+        return False
+
+
+def short(p, base):
+    """a path for messages: <base>/…(n bytes)"""
+    return "<%d-byte path %s>" % (len(p), (p if len(p) < 60 else p[:len(base) + 8] + "..." + p[-6:]))
+
+
+def check_bound(D, base, live, what):
+    """'at most one munged bound to a socket path, the one the path's lock protects', read off /proc/net/unix:
+    live = [(Dir, pid)] daemons that are up.  Returns (failures, listening)"""
+    bad = []
+    lis = listening_under(base)
+    names = [p for p, _ in lis]
+    for nm in sorted(set(names)):
+        if names.count(nm) > 1:
+            bad.append("%s: %d listening sockets are bound to the one name %s" % (what, names.count(nm), short(nm, base)))
+    conf = {d.sock: pid for d, pid in live}
+    for nm in sorted(set(names)):
+        if nm not in conf:
+            bad.append("%s: a munged listens on %s, which is not the configured socket path of any running daemon "
+                       "(configured: %s)" % (what, short(nm, base), ", ".join(short(x, base) for x in conf) or "none"))
+    for d, pid in live:
+        if d.sock not in names:
+            bad.append("%s: munged pid %d configured with socket %s is running but no listening socket is bound to that "
+                       "name (bound names: %s)" % (what, pid, short(d.sock, base), ", ".join(short(x, base) for x in names) or "none"))
+        h = lock_holder(d.lock)
+        if h != pid:
+            bad.append("%s: the lock file of %s is held by %s, the daemon is pid %d" % (what, short(d.sock, base), h, pid))
+    if len(names) != len(live) and not bad:
+        bad.append("%s: %d daemons are up, %d listening sockets" % (what, len(live), len(names)))
+    return bad, lis
+
+
+def scenario_pathlen(ctx, exe, oracle, spec):
+    """spec: tag, n (length of the socket path in bytes), neighbour (bool: afterwards start a second daemon on a proper
+    prefix of the path — the first cut bytes when n >= cut, else the path minus its last byte).
+    Returns (property failures, correspondence breaks, facts)."""
+    n, cut = spec["n"], spec["cut"]
+    base = os.path.join(ctx.tmp, spec["tag"])
+    os.makedirs(base, exist_ok=True)
+    os.chmod(base, 0o755)
+    A = path_of_length(base, n)
+    fails, corr, facts = [], [], {"n": n}
+    if A is None:
+        return fails, corr, facts
+    Q = Dir(ctx, spec["tag"], sock=A, sfx="Q")
+    P = None
+    tr = os.path.join(base, "trQ")
+    ignore = {Q.key, Q.log, tr}
+    procs = []
+    try:
+        mtoks, mref, mbind = model_path_program(oracle, Q) if oracle else (None, None, None)
+        q = start_fg(Q, exe, trace=tr)
+        procs.append(q)
+        q_up = wait_started(Q, q)
+        facts["accepted"] = q_up
+        live = []
+        if q_up:
+            qpid = Q.procs()[0]
+            live.append((Q, qpid))
+            wait_for(lambda: listening_under(base), 2.0)
+            bad, lis = check_bound(Q, base, live, "socket path of %d bytes" % n)
+            fails += bad
+            c = canary(Q.sock)
+            if c and not bad:
+                time.sleep(0.3)
+                c = canary(Q.sock)
+            if c and "path too long" in c and not bad:
+                c = None         # this client cannot name the path; /proc/net/unix above is the evidence
+            if c:
+                fails.append("socket path of %d bytes: the daemon is up but a request sent to its configured socket path "
+                             "fails: %s" % (n, c))
+        else:
+            rc = q.poll()
+            facts["exit"] = rc
+            lis = listening_under(base)
+            socks = [p for p, k in tree_files(base).items() if k == "sock"]
+            if rc == 0:
+                fails.append("socket path of %d bytes: the start command exited 0 but no daemon is up" % n)
+            if lis or socks:
+                fails.append("socket path of %d bytes: the start was refused (exit %s) but a socket was bound: %s"
+                             % (n, rc, ", ".join(short(x, base) for x in ([p for p, _ in lis] + socks))))
+        facts["bound"] = [p for p, _ in lis]
+        before = {p: os.lstat(p).st_ino for p, k in tree_files(base).items() if k == "sock"}
+        # ---- a second daemon on a proper prefix of the path
+        if spec.get("neighbour"):
+            B = A[:cut - 1] if n >= cut else A[:-1]
+            if len(B) > len(os.path.dirname(A)) + 1:
+                P = Dir(ctx, spec["tag"], sock=B, sfx="P")
+                ignore |= {P.key, P.log}
+                pp = start_fg(P, exe)
+                procs.append(pp)
+                p_up = wait_started(P, pp)
+                facts["neighbour_up"] = p_up
+                if not p_up:
+                    fails.append("socket path of %d bytes, second daemon on its %d-byte prefix: the second start failed "
+                                 "(exit %s) although no daemon is configured with that path: %s"
+                                 % (n, len(B), pp.poll(), tail(P.log, 200)))
+                else:
+                    live.append((P, P.procs()[0]))
+                    wait_for(lambda: len(listening_under(base)) >= len(live), 2.0)
+                    bad, lis2 = check_bound(P, base, live, "socket path of %d bytes and a second daemon on its %d-byte prefix"
+                                            % (n, len(B)))
+                    fails += bad
+                    for sp, ino in before.items():
+                        try:
+                            now = os.lstat(sp).st_ino
+                        except OSError:
+                            now = None
+                        if now != ino:
+                            fails.append("socket path of %d bytes: a start on the %d-byte prefix replaced the socket of the "
+                                         "running daemon (%s: inode %s -> %s)" % (n, len(B), short(sp, base), ino, now))
+                    for d, pid in live:
+                        c = canary(d.sock)
+                        if c and not fails:
+                            time.sleep(0.3)
+                            c = canary(d.sock)
+                        if c and "path too long" in c and not fails:
+                            c = None
+                        if c:
+                            fails.append("socket path of %d bytes and a second daemon on its %d-byte prefix: pid %d no "
+                                         "longer answers on its configured path %s: %s"
+                                         % (n, len(B), pid, short(d.sock, base), c))
+                    facts["bound_with_neighbour"] = [p for p, _ in lis2]
+        # ---- clean stops (a refused start is an error exit, not a clean stop: what it leaves is not judged)
+        refused_locks = set()
+        for d, pr in [(Q, q)] + ([(P, procs[1])] if P is not None else []):
+            if any(d is x for x, _ in live):
+                if not stop_clean(d, pr):
+                    fails.append("socket path of %d bytes: the daemon on %s did not exit within 8 s of SIGTERM"
+                                 % (n, short(d.sock, base)))
+            else:
+                refused_locks |= {d.lock, d.lock[:1023]}
+        left = tree_files(base)
+        lis3 = listening_under(base)
+        for p, k in sorted(left.items()):
+            if p in ignore or p in refused_locks:
+                continue
+            if k == "sock":
+                fails.append("socket path of %d bytes: after the clean stop a socket is left behind: %s" % (n, short(p, base)))
+            elif p.endswith(".lock") or os.path.basename(p).startswith("pid"):
+                fails.append("socket path of %d bytes: after the clean stop %s is left behind" % (n, short(p, base)))
+        if lis3:
+            fails.append("socket path of %d bytes: after the clean stop a listening socket remains: %s"
+                         % (n, ", ".join(short(x, base) for x, _ in lis3)))
+        for d, _ in live:
+            if not os.path.exists(d.seed):
+                fails.append("socket path of %d bytes: after the clean stop there is no seed file" % n)
+        # ---- names at every site vs the byte-string model
+        try:
+            text = open(tr).read()
+        except OSError:
+            text = ""
+        ltoks, _ = raw_trace(text, base, ignore)
+        facts["trace"] = [t.replace(base, "~") for t in ltoks]
+        if mtoks is not None:
+            want = mtoks if not mref else mtoks + ["exit!1"]
+            got = ltoks if not mref else [t for t in ltoks if not t.startswith("exit!")] + \
+                ["exit!1" for t in ltoks if t.startswith("exit!")][:1]
+            if got != want:
+                i = next((k for k in range(min(len(got), len(want))) if got[k] != want[k]), min(len(got), len(want)))
+                corr.append(("socket path of %d bytes: the names the daemon hands to the kernel differ from StartPathModel at "
+                             "step %d: daemon %s, model %s" % (n, i, (got[i:i + 1] or ["(end)"])[0].replace(base, "~"),
+                                                                (want[i:i + 1] or ["(end)"])[0].replace(base, "~")),
+                             {"obligation": "correspondence StartPathModel.cprog ~ strace(munged), path length %d" % n,
+                              "scenario": "pathlen", "spec": {k: v for k, v in spec.items() if k != "tag"},
+                              "daemon": [t.replace(base, "~") for t in got], "model": [t.replace(base, "~") for t in want]}))
+        return fails, corr, facts
+    finally:
+        for d in (Q, P):
+            if d is not None:
+                d.killall()
+        for pr in procs:
+            if pr.poll() is None:
+                pr.kill()
+        shutil.rmtree(base, ignore_errors=True)
+
+
+# ---------------------------------------------------------------------------------------------------
 # finding F-C15-unlink
 # ---------------------------------------------------------------------------------------------------
 def scenario_overlap(ctx, exe, tag):
@@ -899,7 +1288,10 @@ def run(ctx):
                        "correspondence: abstracted strace of the rebuilt daemon (start+stop, losing start) == model "
                        "program; live evaluations = racing-start scenarios (k=2..8, barrier, random strace delays on "
                        "fcntl/unlink/bind/openat), late starts, clean stop + restart, SIGKILL injected at each "
-                       "name-touching syscall of start-up/shutdown (stride sample in quick) + restart; model "
+                       "name-touching syscall of start-up/shutdown (stride sample in quick) + restart; socket paths of "
+                       "sizeof(sun_path)-2..+1 bytes (thorough: +-4, random, past lock.c's buffer): names at every site "
+                       "(strace) == StartPathModel.cprog, /proc/net/unix and directory after start, after a start on a "
+                       "proper prefix, after clean stops; model "
                        "evaluations = random k-process schedules through the extracted model.  non-trivial = distinct "
                        "scenario (k, delays, kill point) or schedule")
     oracle = vlib.build_oracle(ctx, "start")
@@ -1087,6 +1479,50 @@ def _run_live(ctx, exe, oracle, concrete, corr):
                                                    "(no --force) on the same paths"}))
         ctx.cov["files_left_at_kill_point"] = lefts
         ctx.log("crash points done: %d kill points, %d with failures" % (len(cspecs), sum(1 for _, (f, _) in res if f)))
+    # ---- (d) socket path names: lengths around sizeof(sun_path) / the copy size / the bound of the length test
+    sizes = {"sun_path": 108, "copy_size": 108, "len_bound": 108, "lock_name_max": 1023}
+    if oracle:
+        rc, out, err = vlib.run_lines([oracle], ["S"])
+        if rc == 0 and len(out) == 1 and out[0].startswith("S "):
+            sizes.update({k: int(v) for k, v in (t.split("=") for t in out[0].split()[1:])})
+    pspecs = []
+    if replay and replay.get("scenario") == "pathlen":
+        pspecs = [dict(replay["spec"], tag="pp0")]
+    elif replay is None:
+        cut = max(2, sizes["copy_size"])
+        lens = set()
+        for v in (sizes["sun_path"], sizes["copy_size"], sizes["len_bound"]):
+            lens |= set(range(v - 2, v + 2)) if not ctx.thorough else set(range(v - 4, v + 5))
+        if ctx.thorough:
+            lo = len(ctx.tmp) + 12
+            lens |= {rng.randrange(lo, sizes["sun_path"] - 3) for _ in range(8)}
+            lens |= {sizes["sun_path"] + 20, 300, sizes["lock_name_max"] - 5, sizes["lock_name_max"] - 4,
+                     sizes["lock_name_max"] + 8}
+        for n in sorted(lens):
+            if n > len(ctx.tmp) + 10:
+                pspecs.append({"tag": "pl%d" % n, "n": n, "cut": cut, "neighbour": True})
+    if pspecs:
+        with ThreadPoolExecutor(max_workers=6) as ex:
+            res = list(ex.map(lambda sp: (sp, scenario_pathlen(ctx, exe, oracle, sp)), pspecs))
+        acc = {}
+        for sp, (fails, cbreaks, fct) in res:
+            ctx.count(("pathlen", sp["n"], sp.get("neighbour")))
+            dist["pathlen"] = dist.get("pathlen", 0) + 1
+            acc[str(sp["n"])] = "accepted" if fct.get("accepted") else "refused(exit %s)" % fct.get("exit")
+            spx = {k: v for k, v in sp.items() if k != "tag"}
+            if fails:
+                concrete.append((fails[0], {"scenario": "pathlen", "spec": spx, "all_failures": fails, "facts": fct,
+                                            "sizes": sizes,
+                                            "how": "d=$(mktemp -d); chmod 755 $d; S=$d/ssss... padded to exactly n bytes; "
+                                                   "munged -F -S $S --key-file .. --pid-file .. --seed-file ..; compare the "
+                                                   "Path column of /proc/net/unix with $S; (neighbour) start a second munged "
+                                                   "on the first cut-1 bytes of $S; SIGTERM both; ls $d"}))
+            corr.extend(cbreaks)
+        ctx.cov["socket_path_lengths"] = acc
+        ctx.sample({"pathlen": {k: v for k, v in pspecs[0].items() if k != "tag"}, "result": res[0][1][2]})
+        ctx.log("socket path lengths done: %s; %d with failures" % (
+            " ".join("%s:%s" % (k, v.split("(")[0]) for k, v in sorted(acc.items(), key=lambda kv: int(kv[0]))),
+            sum(1 for _, (f, _, _) in res if f)))
     # ---- the holder dies while another start is between its lock calls
     if replay is None:
         for which in ((1, 2) if ctx.thorough else (2,)):
